@@ -71,9 +71,25 @@ def binary (op : String) (a b : List Nat) : String :=
   | "match" => withSelf a fun s => withSelf b fun e => showTail (fun n => s!"val {n}") (matchUpTo s e)
   | _ => "bad-op"
 
+/-- `at <n> op a [b]`: the harness places the operands at start alignments / between surrounding bytes
+encoded by `n < 1024`.  The model has no addresses — an operand *is* its byte list — so the answer it
+gives is the one for the plain case: that the real code's result does not depend on where its
+operands live is exactly what these lines check. -/
+def placement (n : String) : Bool :=
+  n.length ≥ 1 && n.length ≤ 4 && n.toList.all Char.isDigit &&
+    (n.toList.foldl (fun acc c => acc * 10 + (c.toNat - '0'.toNat)) 0) < 1024
+
 def step (u : Unit) (line : String) : Unit × String :=
   match Drv.words line with
   | ["mode", _] => (u, "ok")
+  | ["at", n, op, a] =>
+    match placement n, Drv.unhex a with
+    | true, some a => (u, unary op a)
+    | _, _ => (u, "bad-op")
+  | ["at", n, op, a, b] =>
+    match placement n, Drv.unhex a, Drv.unhex b with
+    | true, some a, some b => (u, binary op a b)
+    | _, _, _ => (u, "bad-op")
   | [op, a] =>
     match Drv.unhex a with
     | some a => (u, unary op a)
